@@ -360,9 +360,24 @@ def run_command(alias='default', trace=None, **opts):
     return ('ok', None, out.getvalue() + err.getvalue(), tr)
 
 
+def content_types(alias='default'):
+    """rows that post_migrate receivers (django.contrib.contenttypes) write for the project's models: data outside
+    the apps' own tables that an upgrade run can leave behind"""
+    conn = dbrig.raw_connection(alias)
+    try:
+        cur = conn.cursor()
+        cur.execute("SELECT name FROM sqlite_master WHERE type='table' AND name='django_content_type'")
+        if not cur.fetchall():
+            return []
+        cur.execute('SELECT app_label, model FROM django_content_type ORDER BY 1, 2')
+        return [list(r) for r in cur.fetchall()]
+    finally:
+        conn.close()
+
+
 def snapshot(alias='default'):
     """everything a failed or rejected run must leave untouched"""
     bk = bookkeeping(alias)
-    return {'schema': dbrig.abs_schema(alias), 'rows': dbrig.abs_rows(alias),
+    return {'schema': dbrig.abs_schema(alias), 'rows': dbrig.abs_rows(alias), 'content_types': content_types(alias),
             'evolutions': bk['evolutions'], 'versions': bk['versions'],
             'sig': None if bk['sig'] is None else sigs.abs_sig(bk['sig'])}
